@@ -1,4 +1,5 @@
 """C04 - multiplier products and barrel-shifter results (structural parts)."""
+from ..facts import AnalysisBroken
 from ..astq import walk, direct_writes, direct_reads, field_path, unwrap_casts, const_value
 from ..cases import CaseWalker
 from ..norm import render, render_stmt, Renderer, short_fn
@@ -141,27 +142,24 @@ def run(ctx):
         if acc != (nm not in ('Mpy', 'Mpysu')):
             ctx.report(M3, mg, mg['body'], 'MulGeneric accumulate ' + nm, 'kind %s %s the previous product' % (nm, 'accumulates' if acc else 'does not accumulate'))
     pb = ctx.fn(I + 'ProductToBus40(Px) const')
-    r = Renderer(pb, inline_locals=False)
-    sw = [x for x in walk(pb['body']) if x.get('k') == 'switch']
-    ctx.require(len(sw) == 1, 'ProductToBus40: switch not found')
-    got = {}
-    for arm in switch_arms(sw[0]):
-        txt = [r.s(st) for st in arm['stmts'] if st.get('k') != 'break']
-        for l in arm['labels']:
-            got[l] = txt
-    WANTP = {0: ['(= l:value (call SignExtend<33U, unsigned long> l:value))'],
-             1: ['(>>= l:value 1)', '(= l:value (call SignExtend<32U, unsigned long> l:value))'],
-             2: ['(<<= l:value 1)', '(= l:value (call SignExtend<34U, unsigned long> l:value))'],
-             3: ['(<<= l:value 2)', '(= l:value (call SignExtend<35U, unsigned long> l:value))']}
+    from .. import summ, boolform
+    rets = summ.summary(ctx, pb, asserts='ignore').returns()
+    U = '(call Px::Index on $0 )'
+    PS = '([] (. f:Teakra::Interpreter::regs %s::ps) %s)' % (RS, U)
+    SRC = '(| (<< ([] (. f:Teakra::Interpreter::regs %s::pe) %s) 32) ([] (. f:Teakra::Interpreter::regs %s::p) %s))' % (RS, U, RS, U)
+    WANTP = {0: '(call SignExtend<33U, unsigned long> %s)' % SRC, 1: '(call SignExtend<32U, unsigned long> (>> %s 1))' % SRC,
+             2: '(call SignExtend<34U, unsigned long> (<< %s 1))' % SRC, 3: '(call SignExtend<35U, unsigned long> (<< %s 2))' % SRC}
     for ps, w in WANTP.items():
         ctx.inst(M3)
-        if got.get(ps) != w:
-            ctx.report(M3, pb, sw[0], 'ProductToBus40 ps=%d' % ps, 'product shift mode %d does %s, the architecture says %s' % (ps, got.get(ps), w))
-    ctx.inst(M3)
-    t = r.s(pb['body'])
-    if '(var value (| (<< ([] (. f:Teakra::Interpreter::regs %s::pe) l:unit) 32) ([] (. f:Teakra::Interpreter::regs %s::p) l:unit)))' % (RS, RS) not in t \
-            or r.r(sw[0]['cond']) != '([] (. f:Teakra::Interpreter::regs %s::ps) l:unit)' % RS:
-        ctx.report(M3, pb, pb['body'], 'ProductToBus40 source', 'the 33-bit product is not p[unit] | pe[unit] << 32 shifted by ps[unit]')
+        got = []
+        for val, cond in rets.items():
+            t = boolform.eval_selector(cond, PS, ps)
+            if t is None:
+                raise AnalysisBroken('C04: ProductToBus40 selects on something other than ps[unit]: ' + boolform.show(cond)[:160])
+            if t:
+                got.append(val)
+        if got != [w]:
+            ctx.report(M3, pb, pb['body'], 'ProductToBus40 ps=%d' % ps, 'product shift mode %d yields %s, the architecture says %s' % (ps, [g[:120] for g in got], w[:120]))
     dm = ctx.fn(I + 'DoMultiplication(unsigned int,bool,bool)')
     ctx.inst(M3)
     from .. import summ, boolform
